@@ -5,9 +5,12 @@ package verifharness
 import (
 	"bytes"
 	"context"
+	"fmt"
 	"math/rand"
 	"os"
 	"path/filepath"
+	"regexp"
+	"strconv"
 	"strings"
 	"sync"
 	"syscall"
@@ -234,4 +237,95 @@ func runProcScenario(t *testing.T, rec *Recorder, r *rand.Rand, idx int) {
 	}
 	rec.Emit(fin)
 	rec.Flush()
+}
+
+// TestDriveCli: growth beyond the listed properties - the direct fan commands of the command line (`fan2go fan --id F
+// speed [v]`, `mode [m]`, `rpm`), each a real process (cmd.Execute) on a fake hwmon tree and a file fan; registers before
+// and after, exit status and the printed value are recorded and validated against spec/Cli.tla.
+func TestDriveCli(t *testing.T) {
+	out := os.Getenv("VERIF_OUT")
+	if out == "" {
+		t.Skip("VERIF_OUT not set")
+	}
+	seed := int64(envInt("VERIF_SEED", 1))
+	n := envInt("VERIF_N", 40)
+	rec, err := NewRecorder(out)
+	must(err)
+	defer rec.Close()
+	r := rand.New(rand.NewSource(seed))
+	dir := scratchDir("verif.cli.")
+	defer os.RemoveAll(dir)
+	must(os.Chmod(dir, 0755))
+	root := filepath.Join(dir, "hwmon")
+	chip := filepath.Join(root, "chipa")
+	must(os.MkdirAll(chip, 0755))
+	must(os.WriteFile(filepath.Join(chip, "name"), []byte("chipa\n"), 0644))
+	reg := map[string]string{
+		"h.pwm": filepath.Join(chip, "pwm1"), "h.mode": filepath.Join(chip, "pwm1_enable"), "h.rpm": filepath.Join(chip, "fan1_input"),
+		"f.pwm": filepath.Join(dir, "file_pwm"), "f.rpm": filepath.Join(dir, "file_rpm"),
+	}
+	writeInt(reg["h.pwm"], 100)
+	writeInt(reg["h.mode"], 2)
+	writeInt(reg["h.rpm"], 1200)
+	writeInt(reg["f.pwm"], 50)
+	writeInt(reg["f.rpm"], 800)
+	writeInt(filepath.Join(dir, "temp"), 50000)
+	fileHasRpm := r.Intn(2) == 0
+	rpmLine := ""
+	if fileHasRpm {
+		rpmLine = "      rpmPath: " + reg["f.rpm"] + "\n"
+	}
+	cfgPath := filepath.Join(dir, "fan2go.yaml")
+	yaml := fmt.Sprintf("dbPath: %s\nsensors:\n  - id: s1\n    file:\n      path: %s\ncurves:\n  - id: c1\n    linear:\n      sensor: s1\n      min: 40\n      max: 80\nfans:\n  - id: h\n    curve: c1\n    hwmon:\n      platform: chipa\n      index: 1\n  - id: f\n    curve: c1\n    file:\n      path: %s\n%s",
+		filepath.Join(dir, "cli.db"), filepath.Join(dir, "temp"), reg["f.pwm"], rpmLine)
+	must(os.WriteFile(cfgPath, []byte(yaml), 0644))
+	regs := func(fan string) Ev {
+		if fan == "h" {
+			return Ev{"kind": "hwmon", "pwm": readIntFile(reg["h.pwm"]), "mode": readIntFile(reg["h.mode"]), "rpm": readIntFile(reg["h.rpm"]), "hasRpm": true}
+		}
+		return Ev{"kind": "file", "pwm": readIntFile(reg["f.pwm"]), "mode": 1, "rpm": readIntFile(reg["f.rpm"]), "hasRpm": fileHasRpm}
+	}
+	numRe := regexp.MustCompile(`(-?\d+)\)?\s*$`)
+	for i := 0; i < n; i++ {
+		fan := []string{"h", "f"}[r.Intn(2)]
+		var args []string
+		ev := Ev{"ev": "Cli", "fan": fan, "v": 0, "arg": ""}
+		switch r.Intn(6) {
+		case 0:
+			ev["cmd"], args = "speedGet", []string{"speed"}
+		case 1, 2:
+			v := []int{0, 1, 77, 128, 254, 255}[r.Intn(6)]
+			ev["cmd"], ev["v"], args = "speedSet", v, []string{"speed", strconv.Itoa(v)}
+		case 3:
+			ev["cmd"], args = "modeGet", []string{"mode"}
+		case 4:
+			a := []string{"0", "1", "2", "disabled", "pwm", "auto", "Auto", "turbo", "3", "7"}[r.Intn(10)]
+			ev["cmd"], ev["arg"], args = "modeSet", a, []string{"mode", a}
+		default:
+			ev["cmd"], args = "rpmGet", []string{"rpm"}
+		}
+		if r.Intn(3) == 0 { // the device changes between two commands (somebody else uses it)
+			writeInt(reg[fan+".rpm"], 300+r.Intn(3000))
+			writeInt(reg[fan+".pwm"], r.Intn(256))
+		}
+		ev["before"] = regs(fan)
+		var outb bytes.Buffer
+		cmd := StartChild("cli", append([]string{"fan", "--id", fan, "-c", cfgPath}, args...), root, filepath.Join(dir, "cli.trace"), &outb)
+		code, _, timedOut := waitExit(cmd, 20*time.Second)
+		ev["after"] = regs(fan)
+		ev["exit"] = code
+		if timedOut {
+			ev["exit"] = -9
+		}
+		val := -1
+		if m := numRe.FindStringSubmatch(strings.TrimSpace(outb.String())); m != nil && code == 0 {
+			val, _ = strconv.Atoi(m[1])
+		}
+		if strings.Contains(outb.String(), "N/A") {
+			val = -1
+		}
+		ev["value"] = val
+		ev["out"] = tailStr(outb.String(), 120)
+		rec.Emit(ev)
+	}
 }
